@@ -333,11 +333,14 @@ package codegen
 // (type-derived: for the statement handled by one iteration every field of type
 // Block of every statement kind is passed to the recursive call; see ir/zz_verif_contracts.go)
 //
+// A function is marked as visited before its body is scanned: the mark is what
+// stops the scan on (mutually) recursive call graphs.
 //@ func (*Backend).collectGlobalVarsFromStatements
 //@   mode bv
-//@   tags C02 C17 C15
+//@   tags C02 C17 C15 C10
 //@   ghostcall collectGlobalVarsFromStatements visitedBlock
 //@   traverse stepmark 1 stmts ir.Block visitedBlock($)
+//@   at (*Backend).collectGlobalVarsFromFunction assert [marked-before-descent] has(visitedFuncs, s.Function) && visitedFuncs[s.Function]
 //
 //
 // ---- layout decorations (C07, C02) -------------------------------------------------------
